@@ -18,6 +18,15 @@ P("C17", [("V1", None)],
   "(anti-unification of many answers) is not reached by this unit.",
   "contract-based deductive verification: Verus on mechanically extracted function text")
 
+P("C27", [("K5", None)],
+  "model_checking",
+  "Kani/CBMC on the real in_place.rs with drop-counting elements: for every failure position (or none), every capacity slack, "
+  "identical / different / zero-sized layouts and the box variant, each element is dropped exactly once on failure and never on success, "
+  "with all pointer, allocation and deallocation checks of CBMC on. The panic path is covered through the contract of the drop guard. "
+  "BOUNDED in the vector length (3 quick / 6 thorough); not counted as proved.",
+  "Assumed: unwinding runs the same drop glue as early return; Kani's model of Vec/Box raw-parts functions; bound on length.",
+  "contract-based verification with Kani harness contracts, bounded unwinding (vector length), unwinding assertions on")
+
 # ---- not (yet) claimed
 NOT_APPLICABLE['C02'] = "completeness of proof search within size limits is a whole-search statement; the mechanisms named in the anchors (on_no_strands_left, clear_strands_after_cycle, solve_new_subgoal, Fulfill::fulfill) log, use FxHashMap tables and custom Index impls (DESIGN P5/P6/P10) and none has a per-function contract implying 'never Ambiguous'"
 NOT_APPLICABLE['C04'] = 'relational property between two whole solvers; no function has a contract that mentions both'
